@@ -240,5 +240,50 @@ def sql_varid(prog: Program) -> RuleResult:
     return r
 
 
+def sql_alias(prog: Program) -> RuleResult:
+    """Joined relationship paths are remembered per FROM element (class or alias) they start from: a key derived from
+    the mapped class conflates two paths that reach the same class through different relationships."""
+    r = RuleResult("SQL-ALIAS", "the join cache distinguishes the FROM element a relationship path starts from", floor=3)
+    jm = prog.cls("eql_interface.JoinManager")
+    for mname in ("add_path_join", "is_path_joined", "get_alias_for_path"):
+        f = prog.method(jm.qual, mname, inherited=False)
+        keys = []
+        for n in walk_local(f.node):
+            if isinstance(n, ast.Subscript) and "aliases_by_path" in src(n.value):
+                keys.append(n.slice)
+            if isinstance(n, ast.Call) and call_name(n) == "get" and "aliases_by_path" in src(n.func) and n.args:
+                keys.append(n.args[0])
+            if isinstance(n, ast.Compare) and any(isinstance(o, (ast.In, ast.NotIn)) for o in n.ops) and "aliases_by_path" in src(n.comparators[0]):
+                keys.append(n.left)
+        ok = bool(keys)
+        shown = ""
+        for k in keys:
+            shown = src(k)
+            # inline a helper that builds the key
+            if isinstance(k, ast.Call) and isinstance(k.func, ast.Attribute) and k.func.attr in jm.methods:
+                h = jm.methods[k.func.attr]
+                rets = [x.value for x in walk_local(h.node) if isinstance(x, ast.Return) and x.value is not None]
+                hp = h.params if h.is_staticmethod else h.params[1:]
+                sub = dict(zip(hp, [src(a) for a in k.args]))
+                if len(rets) == 1 and isinstance(rets[0], ast.Tuple):
+                    elts = [sub.get(src(e), "<derived:" + src(e) + ">") for e in rets[0].elts]
+                else:
+                    elts = ["<derived>"]
+            elif isinstance(k, ast.Tuple):
+                elts = [src(e) for e in k.elts]
+            else:
+                elts = ["<derived:" + src(k) + ">"]
+            params = f.params[1:]
+            ok = ok and len(elts) == 2 and elts[0] == params[0] and elts[1] == params[1]
+        r.check(ok, f"JoinManager.{mname}#key", site(f), shown, "keyed by (the FROM element itself, relationship name)",
+                "the path key is not (the FROM element as given, relationship name): two chains that reach the same mapped class through different relationships share one alias, "
+                "and conditions on them are translated against the same joined table")
+    tr = prog.cls(TR)
+    f = prog.method(tr.qual, "_walk_attribute_chain", inherited=False)
+    ok = any(isinstance(n, ast.Assign) and src(n.targets[0]) == "current_dao" and "alias" in src(n.value) for n in walk_local(f.node))
+    r.check(ok, "EQLTranslator._walk_attribute_chain#continues-from-alias", site(f), "", "the chain continues from the alias that was joined", "the chain does not continue from the joined alias")
+    return r
+
+
 def run(prog: Program, tier: str) -> List[RuleResult]:
-    return [sql_reject(prog), sql_ops(prog), sql_varid(prog)]
+    return [sql_reject(prog), sql_ops(prog), sql_varid(prog), sql_alias(prog)]
